@@ -474,6 +474,54 @@ func runC06(c *Ctx) {
 			}
 			callsAll, callsCur := false, false
 			sameArgs := true
+			// index spellings: `for i := range c.caches { c.caches[i].M(..) }`, `for i := 0; .. i < len(c.caches); i++`
+			ast.Inspect(f.Body, func(nd ast.Node) bool {
+				var body *ast.BlockStmt
+				var idx types.Object
+				switch x := nd.(type) {
+				case *ast.RangeStmt:
+					if selName(x.X) == "caches" && x.Value == nil {
+						if kid, isK := x.Key.(*ast.Ident); isK {
+							body, idx = x.Body, info.Defs[kid]
+						}
+					}
+				case *ast.ForStmt:
+					if x.Cond != nil && mentionsSel(x.Cond, "caches") {
+						if as, isAs := x.Init.(*ast.AssignStmt); isAs && len(as.Lhs) == 1 {
+							if kid, isK := as.Lhs[0].(*ast.Ident); isK {
+								body, idx = x.Body, info.ObjectOf(kid)
+							}
+						}
+					}
+				}
+				if body == nil || idx == nil {
+					return true
+				}
+				for _, call := range core.Calls(body, false) {
+					if core.CalleeName(info, call) != "kvcache.Cache."+m.Name() {
+						continue
+					}
+					se, isSel := ast.Unparen(call.Fun).(*ast.SelectorExpr)
+					if !isSel {
+						continue
+					}
+					ix, isIx := ast.Unparen(se.X).(*ast.IndexExpr)
+					if !isIx || selName(ix.X) != "caches" || !isIdentOf(info, ix.Index, idx) {
+						continue
+					}
+					callsAll = true
+					k := 0
+					for _, fl := range f.Type.Params.List {
+						for _, nm := range fl.Names {
+							if k >= len(call.Args) || core.ExprString(call.Args[k]) != nm.Name {
+								sameArgs = false
+							}
+							k++
+						}
+					}
+				}
+				return true
+			})
 			for _, rl := range rangeLoops(f) {
 				if selName(rl.Stmt.X) != "caches" {
 					continue
@@ -513,20 +561,7 @@ func runC06(c *Ctx) {
 		}
 		c.Expect("C06-R5", "methods of kvcache.Cache", iface.NumMethods(), 9)
 		// CanResume is a conjunction; Remove stops at the first error
-		if f := c.Fn("C06-R5", "kvcache", "WrapperCache.CanResume"); f != nil {
-			g := c.G(f)
-			ok := false
-			for _, ex := range g.Returns() {
-				if core.ExprString(ex.Return.Results[0]) == "false" {
-					for _, a := range g.AtomsAt(ex.Loc) {
-						if call, isC := ast.Unparen(a.Expr).(*ast.CallExpr); isC && !a.Val && core.CalleeName(info, call) == "kvcache.Cache.CanResume" {
-							ok = true
-						}
-					}
-				}
-			}
-			c.Check("C06-R5", f.Key()+" = all wrapped caches can resume", c.Pos(f.Decl), ok, "one cache that cannot resume must make the wrapper refuse")
-		}
+		ruleWrapperConjunction(c, "C06-R5")
 		if f := c.Fn("C06-R5", "kvcache", "WrapperCache.StartForward"); f != nil {
 			g := c.G(f)
 			sf := g.FindCalls("kvcache.Cache.StartForward")
